@@ -1038,7 +1038,7 @@ package desync
 //@   checks alloc
 //@   requires $consumed >= 0
 //@   requires @C18 confined(a.dir)
-//@   modifies all, $consumed, $rp, $wn, $tlast, $tlen, $wasRooted
+//@   modifies all, $consumed, $rp, $wn, $tlast, $tlen, $wasRooted, $named
 //@   ensures $consumed >= old($consumed)
 //@   ensures @C18 confined(a.dir) && (r1 == nil ==> nodeConfined(r0))
 //@   loop 1: invariant $consumed >= old($consumed) && confined(a.dir) && (name == "" || safeName(name))
@@ -1050,6 +1050,16 @@ package desync
 //@   ghost@entry $wasRooted = a.rooted
 //@   assert@before:Join @C18 $wasRooted ==> name != ""
 //@   ensures @C18 r1 == nil && r0 != nil ==> a.rooted
+//# F31: entries are unpacked into a directory only. Once the root entry was something else (a file, symlink or device
+//# becomes the destination itself: with a destination path that does not exist yet a root symlink would point anywhere),
+//# no further node is handed out; the flag says exactly whether the nameless root entry was not a directory
+//@   requires @C18 a.rootNotDir ==> a.rooted
+//@   ensures @C18 a.rootNotDir ==> a.rooted
+//@   ensures @C18 old(a.rootNotDir) ==> r0 == nil
+//@   ensures @C18 r1 == nil && r0 != nil && !$wasRooted && is(r0, NodeDirectory) ==> !a.rootNotDir
+//@   ensures @C18 r1 == nil && r0 != nil && !is(r0, NodeDirectory) && !old(a.rootNotDir) ==> a.rootNotDir || $named
+//@   ghost@entry $named = false
+//@   ghost@before:Join $named = name != ""
 
 //# the server allocates for chunk data coming from its own store, not from the request stream
 //@ func (s *ProtocolServer) Serve
@@ -2006,6 +2016,7 @@ package desync
 //@ ghost var $gbfixed bool
 //@ ghost var $supp bool
 //@ ghost var $wasRooted bool
+//@ ghost var $named bool
 //@ ghost var $gbprev int
 
 //# C06 / C14: an upload is reported as done only if a PutObject of this chunk's object name, with the chunk's storage
